@@ -10,7 +10,7 @@ MCSplits2 == { << <<1, 3>> >>, << <<1, 2>>, <<2, 3>> >> }
 MCWidth2 == <<7, 2>>
 MCMarkersSmall == {<<1, 2>>, <<2, 1>>}
 MCMarkersAt == MCKeys22                                   \* at rows (when the row exists)
-MCMarkersAll == {<<t, g>> : t \in 1..2, g \in 0..3}       \* at and between rows
+MCMarkersBetween == {<<t, g>> : t \in 1..2, g \in {0, 3}}  \* between rows (before the first / after the last of a slot)
 
 \* 3 time slots x 1 tag value, every split into up to three LODs
 MCKeys31 == {<<t, 1>> : t \in 1..3}
